@@ -112,6 +112,15 @@ def run_case(ctx, case):
                                        'facts': {'rex': err[0], 'error': err[1]}})
         return
     un = O.unmatched(targets, comp)
+    if not un:
+        # "matched in full": an example ending in a line feed is not matched by an expression that only gets there
+        # through `$` tolerating one final line feed
+        nl = O.only_by_dollar_newline(targets, comp)
+        if nl:
+            rec.violation('not_matched_in_full', {
+                'case': case, 'mech': {'dialect': kw['dialect'], 'sampling': eff, 'ends_in_newline': all(t.endswith('\n') for t in nl)},
+                'facts': {'examples': nl[:5], 'rex': rex[:8]}})
+            return
     roots = [b for b in broken if b['contract'] == 'escaped_bracket']
     if un:
         rec.violation('unmatched', {
